@@ -431,6 +431,32 @@ pub fn run(opts: &Opts, out: &mut Emitter, c04: bool) {
                 emit(out, "grid-sampled", &st, &[q], false);
             }
         }
+        // multi-UTxO stress: 3..6 UTxOs at one address with small amounts, a target that needs
+        // several of them (joint excess matters: 5+5+8 for 12)
+        for _ in 0..opts.n * 10 {
+            let k = 3 + r.below(4) as usize;
+            let mut st = vec![];
+            let mut total_l = 0i128;
+            let mut total_x = 0i128;
+            for i in 0..k {
+                let l = r.range(1, 10) as i128;
+                let x = if r.chance(1, 3) { r.range(1, 6) as i128 } else { 0 };
+                total_l += l;
+                total_x += x;
+                st.push(U {
+                    txid: (r.below(200) + 1) as u8,
+                    index: i as u32,
+                    addr: if r.chance(1, 8) { "B" } else { "A" },
+                    assets: vec![("L", l), ("X", x)],
+                });
+            }
+            let mut min = vec![("L", r.range(1, total_l as i64 + 1) as i128)];
+            if total_x > 0 && r.chance(1, 2) {
+                min.push(("X", r.range(1, total_x as i64) as i128));
+            }
+            let q = Q { name: "src".into(), addr: Some("A"), min: Some(min), refs: vec![], many: true, collateral: false };
+            emit(out, "many-stress", &st, &[q], false);
+        }
         // random: up to 50 UTxOs (and 51..80 to cross the window), large amounts
         for k in 0..opts.n {
             let size = if k % 5 == 4 { 51 + r.below(30) as usize } else { 1 + r.below(50) as usize };
